@@ -9,8 +9,9 @@ Local Open Scope Z_scope.
 Inductive ccase :=
 (** one direction of a real grid: length bits, number of cells, recorded cell_min / cell_max bits *)
 | CExtent (L : Z) (n : Z) (mins maxs : list Z)
-(** hypotheses [start_ok] of the extent theorems, evaluated on one direction of a generated grid *)
-| CPre (L : Z) (n : Z)
+(** hypotheses [pre_ok] of the theorem grid_partition, evaluated on one direction of a generated grid;
+    the recorded cell_min are used as witnesses that no cell is empty *)
+| CPre (L : Z) (n : Z) (mins : list Z)
 (** position_to_cell: lengths, counts, list of (position vector bits, returned flat index) *)
 | CPos (Ls : list Z) (ns : list Z) (ps : list (list Z * Z))
 (** _next_float_up / _next_float_down *)
@@ -34,12 +35,31 @@ Fixpoint check_extents (L : f64) (n : Z) (i : Z) (mins maxs : list Z) : bool :=
   | _, _ => false
   end.
 
-Fixpoint check_pre_from (s : f64) (n : Z) (i : Z) (count : nat) : bool :=
-  match count with
-  | O => true
-  | S k => (idx s n (lower_start s i) <=? i) && (i <=? idx s n (upper_start s i))
-           && check_pre_from s n (i + 1) k
+(** Boolean form of the hypotheses of Proofs/CellsProofs.grid_partition (sound by [pre_ok_sound]):
+    the quotient of the largest position is finite; every cell index is taken by some float [w] of
+    [0, pred L]; the starting points of the constructor's loops lie in [0, pred L] on the right side of
+    their cell. *)
+Definition in_dom (top x : f64) : bool := ffinite x && fle fzero x && fle x top.
+
+Definition pre_item (s top : f64) (n i : Z) (w : f64) : bool :=
+  in_dom top w && (idx s n w =? i)
+  && (if 1 <=? i then
+        let lo := lower_start s i in in_dom top lo && fgt lo fzero && (idx s n lo <=? i)
+      else true)
+  && (if i + 1 <? n then
+        let up := upper_start s i in in_dom top up && (i <=? idx s n up)
+      else true).
+
+Fixpoint pre_from (s top : f64) (n i : Z) (ws : list f64) : bool :=
+  match ws with
+  | [] => i =? n
+  | w :: r => pre_item s top n i w && pre_from s top n (i + 1) r
   end.
+
+Definition pre_ok (L : f64) (n : Z) (ws : list f64) : bool :=
+  let s := side L n in
+  let top := fpred L in
+  (1 <=? n) && ffinite s && fgt s fzero && ffinite top && ffinite (fdiv top s) && pre_from s top n 0 ws.
 
 Fixpoint sides (Ls ns : list Z) : list f64 :=
   match Ls, ns with
@@ -107,7 +127,7 @@ Definition check_torus (periodic : bool) (ns : list Z) (layers : Z) (zero_cell :
 Definition check_ccase (c : ccase) : bool :=
   match c with
   | CExtent L n mins maxs => check_extents (of_bits L) n 0 mins maxs
-  | CPre L n => check_pre_from (side (of_bits L) n) n 0 (Z.to_nat n)
+  | CPre L n mins => pre_ok (of_bits L) n (map of_bits mins)
   | CPos Ls ns ps =>
       let ss := sides Ls ns in
       forallb (fun p => flat ns (idx_vec ss ns (fst p)) =? snd p) ps
